@@ -304,7 +304,26 @@ class SqlTrace(object):
 # ---------------------------------------------------------------------------
 # argument ledger: which public petl functions the check called, and with which keyword arguments
 
-KEYWORD_FORM = [False, 0]      # [active for the current case, calls rewritten so far]; see ArgLedger and run.run_one
+KEYWORD_FORM = [False, 0, 0]      # [False / 'kw' / 'pos' for the current case, calls rewritten to keyword form, ... to positional form]
+
+
+def _load_signatures():
+    import json
+    import os
+    p = os.path.join(os.path.dirname(os.path.abspath(__file__)), 'signatures.json')
+    try:
+        with open(p) as f:
+            return json.load(f)
+    except (OSError, ValueError):
+        return {}
+
+
+SIGNATURES = _load_signatures()
+
+
+def _literal(r):
+    import ast
+    return ast.literal_eval(r)
 
 
 class ArgLedger(object):
@@ -364,8 +383,30 @@ class ArgLedger(object):
             varargs = bool(code is not None and code.co_flags & 0x04)
 
             def mk(name, fn, pnames=pnames, varargs=varargs):
+                doc = SIGNATURES.get(name)
+
                 def wrapper(*a, **k):
-                    if KEYWORD_FORM[0] and len(a) > 1 and not varargs and len(a) <= len(pnames):
+                    if KEYWORD_FORM[0] == 'pos' and k and doc is not None and not doc['varargs'] and not varargs:
+                        # the same call written positionally, in the documented order of the parameters (the snapshot taken from
+                        # the unchanged tree); parameters skipped on the way get their documented default
+                        P, D = doc['params'], doc['defaults']
+                        given = [P.index(x) for x in k if x in P]
+                        if given and len(a) <= min(given):
+                            newa, ok = list(a), True
+                            for idx in range(len(a), max(given) + 1):
+                                pn = P[idx]
+                                if pn in k:
+                                    newa.append(k[pn])
+                                elif pn in D:
+                                    newa.append(_literal(D[pn]))
+                                else:
+                                    ok = False
+                                    break
+                            if ok:
+                                k = {x: v for x, v in k.items() if x not in P}
+                                a = tuple(newa)
+                                KEYWORD_FORM[2] += 1
+                    elif KEYWORD_FORM[0] == 'kw' and len(a) > 1 and not varargs and len(a) <= len(pnames):
                         # the same call with every argument after the first bound by name: by Python's own rules it means the same
                         k = dict(k)
                         for i_ in range(1, len(a)):
